@@ -1,5 +1,5 @@
 """C07 - table status follows its life cycle; one hand at a time; hands are numbered."""
-from .lifebase import run_life, replay_life
+from .lifebase import run_life, replay_life, NH
 
 CL = {1: "a status edge outside the life cycle", 2: "the hand count changed other than +1 on an opened hand",
       3: "a hand opened while another was unsettled", 4: "per-hand fields not reset between hands",
@@ -7,7 +7,10 @@ CL = {1: "a status edge outside the life cycle", 2: "the hand count changed othe
 
 
 def run(res, replay=None):
-    return run_life(res, 3, CL, replay=replay)
+    q = res.tier == "quick"
+    # "late": the blinds are missing when the game starts, and a level - one time in three a break - arrives while the first open is being retried
+    plans = [("gen", None, NH[res.tier], 10 if q else 100, None), ("late", "late_level", 12 if q else 150, 6 if q else 50, None)]
+    return run_life(res, 3, CL, replay=replay, plans=plans)
 
 
 def replay(res, path):
